@@ -57,6 +57,10 @@ def apply(edge, pt, org, ang):
         return FR.enu2ned(np.array(pt, dtype=float))
     if edge == "ned2enu":
         return FR.ned2enu(np.array(pt, dtype=float))
+    if edge in ("enu2ned[N-by-3]", "ned2enu[N-by-3]"):
+        # the point travels as the middle row of a 3-point array
+        P = np.array([[120.0, -45.5, 7.25], list(pt), [-3.0e4, 2.5e3, -800.0]], dtype=float)
+        return np.asarray(getattr(FR, edge[:7])(P), dtype=float)[1]
     if edge == "enu2uvw":
         return FR.enu2uvw(pt[0], pt[1], pt[2], la0, lo0)
     if edge == "uvw+origin":
@@ -65,7 +69,8 @@ def apply(edge, pt, org, ang):
 
 
 START_FRAME = {"geodetic2ecef": "GEO", "geodetic2enu": "GEO", "ecef2geodetic": "ECEF", "ecef2lla": "ECEF", "ecef2enu": "ECEF", "ecef2enuv": "ECEF",
-               "enu2ecef": "ENU", "enu2aer": "ENU", "enu2aer[rad]": "ENU", "enu2dca": "ENU", "enu2dca[rad]": "ENU", "enu2ned": "ENU", "enu2uvw": "ENU", "ned2enu": "NED"}
+               "enu2ecef": "ENU", "enu2aer": "ENU", "enu2aer[rad]": "ENU", "enu2dca": "ENU", "enu2dca[rad]": "ENU", "enu2ned": "ENU", "enu2uvw": "ENU", "ned2enu": "NED",
+               "enu2ned[N-by-3]": "ENU", "ned2enu[N-by-3]": "NED"}
 
 
 def starts(frame, k):
